@@ -501,6 +501,86 @@ func c13Runs(r *run.Run) {
 		})
 }
 
+// DICT operands as other producers write them: the library's writer always emits a real number for a
+// real-valued field, but the format allows integer operands wherever a number is expected (most fonts
+// store the zeros of the font matrix, an integral italic angle or underline position as integers).
+func c13AssembledDicts(r *run.Run) {
+	const (
+		opFontMatrix  = 1207
+		opItalicAngle = 1202
+		opUnderlinePo = 1203
+		opUnderlineTh = 1204
+	)
+	mats := []matrix.Matrix{{0.001, 0, 0, 0.001, 0, 0}, {0.0005, 0, 0, 0.0005, 0, 0}, {1, 0, 0, 1, 0, 0}, {0.001, 0, 0.000176, 0.001, 0, 0}, {0.00048828125, 0, 0, 0.00048828125, 0, 0}, {2, 0, 0, 3, 0, 0}}
+	r.Explore(explore.Config{Name: "C13.assembled-dicts"},
+		"CFF tables assembled by the independent assembler whose Top DICT (and, for CID-keyed fonts, Font DICTs) carry FontMatrix, ItalicAngle, UnderlinePosition and UnderlineThickness with the operands written as real numbers / as integers where the value is integral (the usual encoding of the zeros of a font matrix): cff.Read returns the values written",
+		func(c *explore.Ctx) {
+			m := mats[c.Choose(len(mats), "font matrix")]
+			asInt := c.Bool("integral operands as integers")
+			cid := c.Bool("CID-keyed")
+			angle := explore.Pick(c, "italic angle", 0.0, -12.0, -9.5)
+			under := explore.Pick(c, "underline position", -100.0, -75.5)
+			num := func(v float64) any {
+				if asInt && v == math.Trunc(v) {
+					return int(v)
+				}
+				return v
+			}
+			var ops []any
+			for _, v := range m {
+				ops = append(ops, num(v))
+			}
+			entry := refcff.DictEntry(opFontMatrix, ops...)
+			top := append([]byte{}, refcff.DictEntry(opItalicAngle, num(angle))...)
+			top = append(top, refcff.DictEntry(opUnderlinePo, num(under))...)
+			top = append(top, refcff.DictEntry(opUnderlineTh, num(50))...)
+			spec := &refcff.AsmSpec{Name: "Asm", CharStrings: [][]byte{{14}, {139, 139, 21, 14}}, GlyphNames: []string{"A"}, Privates: []refcff.AsmPrivate{{}}}
+			if cid {
+				spec.CID = true
+				spec.Privates = []refcff.AsmPrivate{{}, {}}
+				spec.FDSelect = []int{0, 1}
+				spec.FDExtra = [][]byte{entry, nil} // the second font dictionary has no matrix of its own
+			} else {
+				top = append(entry, top...)
+			}
+			spec.TopExtra = top
+			desc := fmt.Sprintf("FontMatrix %v, italic angle %v, underline position %v, integral operands as integers: %v, CID-keyed: %v", m, angle, under, asInt, cid)
+			c.Sample(func() any { return desc })
+			c.Nontrivial()
+			data := refcff.Assemble(spec)
+			c.Outcome(data)
+			f, err := cff.Read(bytes.NewReader(data))
+			if err != nil {
+				c.Fail("C13.read", "assembled dicts", "cff.Read rejects the assembled table: %v; %s", err, desc)
+				return
+			}
+			near := func(a, b float64) bool { return math.Abs(a-b) <= 1e-9*math.Max(1, math.Abs(b)) }
+			got := f.FontInfo.FontMatrix
+			if cid {
+				if len(f.FontMatrices) != 2 {
+					c.Fail("C13.matrices", "assembled dicts", "%d font matrices for 2 font dictionaries; %s", len(f.FontMatrices), desc)
+					return
+				}
+				got = f.FontMatrices[0]
+			}
+			for i := range m {
+				if !near(got[i], m[i]) {
+					c.Fail("C13.matrices", fmt.Sprintf("assembled dicts / integers=%v", asInt), "FontMatrix read as %v, the DICT holds %v; %s", got, m, desc)
+					break
+				}
+			}
+			if !near(f.FontInfo.ItalicAngle, angle) {
+				c.Fail("C13.numbers", fmt.Sprintf("assembled dicts / ItalicAngle integers=%v", asInt), "ItalicAngle read as %v, the DICT holds %v; %s", f.FontInfo.ItalicAngle, angle, desc)
+			}
+			if !near(float64(f.FontInfo.UnderlinePosition), under) {
+				c.Fail("C13.numbers", fmt.Sprintf("assembled dicts / UnderlinePosition integers=%v", asInt), "UnderlinePosition read as %v, the DICT holds %v; %s", f.FontInfo.UnderlinePosition, under, desc)
+			}
+			if !near(float64(f.FontInfo.UnderlineThickness), 50) {
+				c.Fail("C13.numbers", fmt.Sprintf("assembled dicts / UnderlineThickness integers=%v", asInt), "UnderlineThickness read as %v, the DICT holds 50; %s", f.FontInfo.UnderlineThickness, desc)
+			}
+		})
+}
+
 func c13Numbers(r *run.Run) {
 	ints := []int32{0, 107, 108, -107, -108, 1131, 1132, -1131, -1132, 32767, 32768, -32768, -32769, 1<<31 - 1, -1 << 31}
 	reals := []float64{0.5, 0.001, 0.039625, 1e-5, 123456789, 1.23456789e-20, -7.5e12, 0.1, -0.25, 3.0e-3, 1e10}
@@ -623,6 +703,7 @@ func init() {
 		c13Sizes(r)
 		c13CID(r)
 		c13Runs(r)
+		c13AssembledDicts(r)
 		c13Numbers(r)
 		c13Widths(r)
 	})
